@@ -70,6 +70,16 @@ func HeldAt(fn *ssa.Function) map[ssa.Instruction]map[string]bool {
 // HeldAtFrom is HeldAt with a set of locks already held on entry (a helper that is only ever
 // called with the mutex held, see EntryLocks).
 func HeldAtFrom(fn *ssa.Function, entry map[string]bool) map[ssa.Instruction]map[string]bool {
+	return heldAt(fn, entry, false)
+}
+
+// MayHeldAt computes, for every instruction, the locks held on at least one path reaching it
+// (may-hold): the basis of re-entrancy (self-deadlock) rules.
+func MayHeldAt(fn *ssa.Function, entry map[string]bool) map[ssa.Instruction]map[string]bool {
+	return heldAt(fn, entry, true)
+}
+
+func heldAt(fn *ssa.Function, entry map[string]bool, may bool) map[ssa.Instruction]map[string]bool {
 	type set = map[string]bool
 	in := map[*ssa.BasicBlock]set{}
 	all := set{}
@@ -92,6 +102,8 @@ func HeldAtFrom(fn *ssa.Function, entry map[string]bool) map[ssa.Instruction]map
 			for k := range entry {
 				in[b][k] = true
 			}
+		} else if may {
+			in[b] = set{}
 		} else {
 			in[b] = top()
 		}
@@ -131,6 +143,10 @@ func HeldAtFrom(fn *ssa.Function, entry map[string]bool) map[ssa.Instruction]map
 				out := transfer(p, in[p], nil)
 				if meet == nil {
 					meet = out
+				} else if may {
+					for k := range out {
+						meet[k] = true
+					}
 				} else {
 					for k := range meet {
 						if !out[k] {
